@@ -39,7 +39,7 @@ class C09(Prop):
     id = "C09"
     lean_modules = ["PkgProofs.Props.C09"]
     generated = ["MarkerTok"]
-    theorems = ["C09.str_roundtrip_char", "C09.marker_roundtrip_char", "MkLex.lex", "MkLexP.parse_spell_print",
+    theorems = ["C09.str_roundtrip_char", "C09.marker_roundtrip_char", "C09.constructed_marker_roundtrip", "MkWf.parse_wf", "MkLex.lex", "MkLexP.parse_spell_print",
                 "C09.str_is_spelled_tokens", "C09.format_parses_back", "C09.format_preserves_grouping",
                 "C09.literal_preserved", "C09.outer_parentheses_dropped", "C09.literal_quote_safe",
                 "C09.literal_eval_roundtrip", "C09.extra_normalised_everywhere", "C09.extra_spelling_normalised",
@@ -58,8 +58,9 @@ class C09(Prop):
                "hash() as an uninterpreted function of (class name, str)"]
     partial = ["the character-level round trip (str_roundtrip_char, marker_roundtrip_char) assumes canonical comparisons: "
                "variables among the twelve canonical names (what process_env_var produces: one_spelling_per_variable), the ten "
-               "operators, literals free of backslash/CR/LF/NUL/surrogates and not containing both quote characters; that the "
-               "parser only ever produces such variables/operators is tied by the correspondence, not proved",
+               "operators, literals free of backslash/CR/LF/NUL/surrogates and not containing both quote characters; "
+               "constructed_marker_roundtrip discharges the variable/operator part for every marker Marker() can construct "
+               "(parse_wf), leaving only the condition on literals (true of every PEP 508 string)",
                "Requirement(s).marker == Marker(s) is a law on the real code only (the requirement parser is C08's model)",
                "literals containing a backslash are outside the PEP 508 string alphabet: literal_eval's escape processing is "
                "modelled and corresponds, but such literals do not round-trip (str does not re-escape) and no theorem covers them"]
